@@ -121,7 +121,7 @@ func checkDeterminism(c *c02Case) (key, msg string, collide bool) {
 			}
 			for i := 0; i < 3; i++ {
 				var b strings.Builder
-				for _, t := range c.Targets[:min(len(c.Targets), 2)] {
+				for _, t := range c.Targets {
 					errs, err := l.LintFile(filepath.Join(w.Root, t), nil)
 					if err != nil {
 						fmt.Fprintf(&b, "fatal: %v\n", err)
